@@ -15,6 +15,7 @@ CONSTANTS
   DrainMode = "inner"
   Strict = FALSE
   WithServe = FALSE
+  Hist = FALSE
 INVARIANTS TypeOK C02_TargetPrefix C02_ClientPrefix C02_FinToTargetAfterAll C02_FinToClientAfterAll C02_Independent C02_CompleteAtClose
 INVARIANTS C15_Language C15_AuthOnlyIfAuthenticated C15_ProbeIffFailed C15_ProbeBytes C15_Status C15_OkIffComplete C15_Counters
 INVARIANTS C18_NoLeak C18_ServeWaits C18_SocketsFollowHandler
